@@ -410,6 +410,8 @@ def _builtin_value(name, args):
     for (fn, consts), val in _BUILTIN.items():
         if fn == name and len(consts) == len(args) and all(_is_const(a, c) for a, c in zip(args, consts)):
             return val
+    if name.startswith("Prefix") and len(args) == 1 and _is_const(args[0], 0):
+        return 0
     if name == "pow" and len(args) == 2:
         if _is_const(args[1], 0) or _is_const(args[0], 1):
             return 1
